@@ -56,6 +56,11 @@ class ListWrapper(typing.MutableSequence[T]):
     def _remove(self, value: T) -> None:
         pass  # pragma: no cover
 
+    def _holds(self, value: T) -> bool:
+        """Is this very object in the list? Subclasses that know the owner of
+        a value can answer without scanning."""
+        return any(item is value for item in self._data)
+
     # begin functions for ABC
     @typing.overload
     def __getitem__(self, i: int) -> T:
@@ -147,11 +152,16 @@ class ListWrapper(typing.MutableSequence[T]):
 
     def insert(self, i: int, v: T) -> None:
         # An index that a list refuses is refused before any hook runs.
-        list(self._data).insert(i, v)
-        # As an empty slice assignment: an item that is in this list already
-        # moves to where a list would insert it (not one place further, which
-        # is where the index points once the old occurrence is gone).
-        self[i:i] = [v]
+        [].insert(i, v)
+        if self._holds(v):
+            # As an empty slice assignment: an item that is in this list
+            # already moves to where a list would insert it (not one place
+            # further, which is where the index points once the old
+            # occurrence is gone).
+            self[i:i] = [v]
+        else:
+            self._add(v)
+            self._data.insert(i, v)
 
     # The version of typing.py which comes with python 3.5.2 doesn't provide
     # definitions for append or remove on MutableList, so we have to do it
